@@ -103,6 +103,7 @@ fn thin(lo: u64, hi: u64, max: usize, rng: &mut Prng) -> Vec<u64> {
 impl TemplateJob {
     fn from_program(prog: Program, seed: u64, max_points: usize, ex: &mut Executor, out: &mut JobResult) -> Option<Self> {
         let mut sc = Scenario::standard(&prog.text, Limits::calibration());
+        sc.perms[4] = Some(true); // regex atoms
         sc.label = format!("C08 tpl {}", encode(&prog));
         sc.seed = seed;
         let base = prepare_base(P, P, &sc, ex, out)?;
@@ -340,7 +341,9 @@ fn gen_history(rng: &mut Prng, prog: &Program) -> Vec<HostOp> {
     let mut two = false;
     let n = 4 + rng.below(12) as usize;
     for _ in 0..n {
-        match rng.below(12) {
+        match rng.below(13) {
+            // re-arming the (unset) time limit is not a reset of anything else
+            12 => ops.push(HostOp::ResetTimeout),
             0..=6 => {
                 let slot = if two && rng.chance(1, 3) { 1 } else { 0 };
                 let f = if rng.chance(1, 5) { "main".to_string() } else { rng.pick(&prog.exports).clone() };
@@ -371,6 +374,7 @@ impl HistoryJob {
         let mut scenarios = vec![];
         for k in 0..count {
             let mut sc = Scenario::standard(&prog.text, Limits::calibration());
+            sc.perms[4] = Some(true);
             sc.seed = spec.seed.wrapping_add(k as u64);
             sc.ops = gen_history(&mut rng, &prog);
             let total: u64 = prog.main_calls() * 2 + 3;
